@@ -12,6 +12,7 @@ From Coq Require Import List Arith ZArith.
 Import ListNotations.
 From Yaqs Require Import Model.TdvpSweep Proofs.TdvpSweepP Model.JumpPipeline Proofs.JumpPipelineP Model.BugSweep Proofs.BugSweepP Model.SingleSite Proofs.SingleSiteP.
 From Yaqs Require LinAlg.Strang.
+From Yaqs Require Import Proofs.PalP.
 
 Theorem C05_time_budget : forall ones, 2 <= length ones -> sane ones ->
   (forall j, j < length ones -> total_site j (fw 0 ones false) = 1%Z) /\
@@ -77,3 +78,9 @@ Theorem C05_symmetric_splitting_is_second_order :
   forall C B : R, Strang.teq (Strang.tmul (Strang.tmul (Strang.texp C) (Strang.texp B)) (Strang.texp C)) (Strang.texp (add (add C C) B)).
 Proof. exact @Strang.strang. Qed.
 Print Assumptions C05_symmetric_splitting_is_second_order.
+
+(* with uniform decisions the step list of one time step IS such a mirrored sweep: it reads the same backwards *)
+Theorem C05_uniform_sweep_is_palindrome : forall n,
+  (let o := repeat true (S n) in rev (sweep o o) = sweep o o) /\ (let o := repeat false (S (S n)) in rev (sweep o o) = sweep o o).
+Proof. intro n. split; [apply sweep_one_site_palindrome|apply sweep_two_site_palindrome]. Qed.
+Print Assumptions C05_uniform_sweep_is_palindrome.
